@@ -12,6 +12,11 @@ VERIF = os.path.dirname(os.path.dirname(os.path.abspath(__file__)))
 KDIR = os.environ.get('VERIF_KDIR') or os.path.join(VERIF, 'k')
 WORK = os.path.join(VERIF, '.work')
 KBASE = os.path.join(WORK, 'kbase')
+REPO = os.environ.get('VERIF_REPO', '/repo')     # development / self-test: run against a scratch copy of the repository
+
+
+def repo_override():
+    return ['--config', f'paths=["{REPO}/programs/whirlpool"]'] if REPO != '/repo' else []
 
 ANN = re.compile(r'//\s*@verif\s+(.*)')
 
@@ -82,7 +87,7 @@ def parse_harnesses(files=None):
 
 
 def _sync_lock():
-    src = '/repo/Cargo.lock'
+    src = os.path.join(REPO, 'Cargo.lock')
     dst = os.path.join(KDIR, 'Cargo.lock')
     try:
         if not os.path.exists(dst) or open(src, 'rb').read() != open(dst, 'rb').read():
@@ -122,7 +127,7 @@ def run_group(hs, target, jobs, mem_gb, log_path, extra=()):
     tmo = max(h.timeout for h in hs)
     cmd = ['cargo', 'kani', '--target-dir', target, '-Z', 'stubbing', '-Z', 'unstable-options',
            '--harness-timeout', f'{tmo}s', '--export-json', jpath, '--output-format', 'terse',
-           '-j', str(jobs), '--exact', '--no-assertion-reach-checks'] + list(extra)
+           '-j', str(jobs), '--exact', '--no-assertion-reach-checks'] + list(extra) + repo_override()
     for h in hs:
         cmd += ['--harness', h.full]
     uw = sorted({u for h in hs for u in h.unwindset})
@@ -185,7 +190,7 @@ def playback_test_code(h, target, log_path):
     """re-run a failed harness with concrete playback and return the generated unit test source"""
     cmd = ['cargo', 'kani', '--target-dir', target, '-Z', 'stubbing', '-Z', 'concrete-playback',
            '--concrete-playback=print', '--output-format', 'terse', '--exact', '--harness', h.full,
-           '-Z', 'unstable-options', '--harness-timeout', f'{h.timeout}s', '--no-assertion-reach-checks']
+           '-Z', 'unstable-options', '--harness-timeout', f'{h.timeout}s', '--no-assertion-reach-checks'] + repo_override()
     if h.unwindset:
         cmd += ['--cbmc-args', '--unwindset', ','.join(h.unwindset)]
     p = subprocess.run(cmd, cwd=KDIR, env=kani_env(), capture_output=True, text=True, timeout=h.timeout + 900)
@@ -211,7 +216,7 @@ def native_replay(h, test_code, log_path, release=False):
     tname = m.group(1)
     with open(modfile, 'a') as f:
         f.write('\n' + test_code + '\n')
-    cmd = ['cargo', 'kani', 'playback', '-Z', 'concrete-playback', '--lib', '--', tname]
+    cmd = ['cargo', 'kani', 'playback', '-Z', 'concrete-playback', '--lib'] + repo_override() + ['--', tname]
     env = kani_env(); env['CARGO_TARGET_DIR'] = os.path.join(WORK, 'replay', 'target')
     try:
         p = subprocess.run(cmd, cwd=scratch, env=env, capture_output=True, text=True, timeout=1800)
